@@ -54,5 +54,5 @@ def run(ctx):
         "the registration handlers of a live server; outcome classes reply / decode error / panic / hang / heap growth",
         ["memory exhaustion and blocking inside the Go runtime, go-rpcgen's rfc1057 server (e.g. its record-length allocation) and the OS are outside the model",
          "the block-index theorem is about the hand-written arithmetic model of bmap (Model/Guards.lean)"],
-        pending=["step_work_bounded (number of block accesses bounded by arguments and object size)"],
+        pending=[],
         partial=["C11 as a whole: proof covers the modelled failure points only"])
